@@ -76,6 +76,8 @@ def tr_expr(e, names):
         f = dotted(e.func)
         if f in ("math.log", "math.exp", "math.sqrt") and len(e.args) == 1 and not e.keywords:
             return f"(.{f.split('.')[1]} {tr_expr(e.args[0], names)})"
+        if f == "math.pow" and len(e.args) == 2 and not e.keywords:
+            return f"(.pow {tr_expr(e.args[0], names)} {tr_expr(e.args[1], names)})"
         # acceptance_prob.item()
         if isinstance(e.func, ast.Attribute) and e.func.attr == "item" and not e.args:
             return tr_expr(e.func.value, names)
@@ -165,6 +167,90 @@ def tr_tune(base):
     return rm
 
 
+# --------------------------------------------------------------------------- HMC step-size adaptors
+ADAPTIVE_LEARN = """
+self._call_counter += 1
+self._accepted += accepted
+if self._start <= self._call_counter <= self._end and (not self._acceptance_rate or self._call_counter >= 10):
+    prob = self._accepted / self._call_counter if self._acceptance_rate else acceptance_prob
+    new_parameter = NEW
+    self._integrator.step_size = SET
+"""
+DUAL_LEARN = """
+self._call_counter += 1
+if self._start <= self._call_counter <= self._end:
+    self._dual_avg.step(self._delta - acceptance_prob)
+    self.integrator.step_size = math.exp(self._dual_avg.x)
+elif self._call_counter >= self._end:
+    self.integrator.step_size = math.exp(self._dual_avg.x_bar)
+"""
+HMC_TUNE = """
+if len(self._adaptors) == 0:
+    super().tune(acceptance_prob, sample, accepted)
+else:
+    for adaptor in self._adaptors:
+        adaptor.learn(acceptance_prob, sample, accepted)
+"""
+
+
+def dump(nodes):
+    return [ast.dump(n) for n in nodes]
+
+
+def method_body(cls, name):
+    m = find_methods(class_ast(cls), name)
+    if len(m) != 1:
+        raise Unrecognised(f"{cls.__name__}.{name} missing")
+    return body_wo_doc(m[0]), m[0]
+
+
+def tr_adaptive(cls):
+    """AdaptiveStepSize.learn: bookkeeping and guard must have exactly the modelled shape; the update
+    expression and the assignment to the step size are translated"""
+    body, _ = method_body(cls, "learn")
+    exp = ast.parse(ADAPTIVE_LEARN).body
+    if len(body) != 3 or dump(body[:2]) != dump(exp[:2]) or not isinstance(body[2], ast.If) or body[2].orelse:
+        raise Unrecognised("AdaptiveStepSize.learn: counters / structure")
+    if ast.dump(body[2].test) != ast.dump(exp[2].test):
+        raise Unrecognised("AdaptiveStepSize.learn: guard " + ast.unparse(body[2].test))
+    inner = body[2].body
+    if len(inner) != 3 or ast.dump(inner[0]) != ast.dump(exp[2].body[0]):
+        raise Unrecognised("AdaptiveStepSize.learn: choice of the acceptance statistic")
+    if not (isinstance(inner[1], ast.Assign) and dotted(inner[1].targets[0]) == "new_parameter"
+            and isinstance(inner[2], ast.Assign) and dotted(inner[2].targets[0]) == "self._integrator.step_size"):
+        raise Unrecognised("AdaptiveStepSize.learn: update statements")
+    upd = tr_expr(inner[1].value, {"self._integrator.step_size": "step", "prob": "prob",
+                                   "self.target_acceptance_probability": "target", "self._call_counter": "count"})
+    st = tr_expr(inner[2].value, {"new_parameter": "value"})
+    return upd, st
+
+
+def tr_dual(da_cls, ss_cls):
+    body, _ = method_body(da_cls, "step")
+    if not body or ast.dump(body[0]) != ast.dump(ast.parse("self._counter += 1").body[0]):
+        raise Unrecognised("DualAveraging.step: counter increment")
+    names = {"self._counter": "counter", "self._t0": "t0", "self.s_bar": "s_bar", "statistic": "statistic",
+             "self.x": "x", "self._mu": "mu", "self._gamma": "gamma", "self._kappa": "kappa", "self.x_bar": "x_bar",
+             "eta": "eta", "x_eta": "x_eta"}
+    assigns = []
+    for st in body[1:]:
+        if not (isinstance(st, ast.Assign) and len(st.targets) == 1 and dotted(st.targets[0]) in names):
+            raise Unrecognised("DualAveraging.step: statement " + ast.unparse(st))
+        assigns.append((names[dotted(st.targets[0])], tr_expr(st.value, names)))
+    if [a for a, _ in assigns] != ["eta", "s_bar", "x", "x_eta", "x_bar"]:
+        raise Unrecognised("DualAveraging.step: assignment order " + str([a for a, _ in assigns]))
+    lb, _ = method_body(ss_cls, "learn")
+    if dump(lb) != dump(ast.parse(DUAL_LEARN).body):
+        raise Unrecognised("DualAveragingStepSize.learn: shape")
+    return assigns
+
+
+def tr_hmc_tune(cls):
+    body, _ = method_body(cls, "tune")
+    if dump(body) != dump(ast.parse(HMC_TUNE).body):
+        raise Unrecognised("HMCOperator.tune: shape")
+
+
 def translate(repo=None):
     """-> (lean source, ok, note, specs) ; specs: kind -> dict(field, getter, setter) as Lean text"""
     import importlib
@@ -187,6 +273,20 @@ def translate(repo=None):
         notes.append(str(e))
     except Exception as e:
         notes.append(f"MCMCOperator.tune: {type(e).__name__}: {e}")
+    ad_upd = ad_set = None
+    dual = None
+    try:
+        from torchtree.inference.hmc.adaptation import AdaptiveStepSize, DualAveragingStepSize
+        from torchtree.inference.hmc.operator import HMCOperator
+        from torchtree.ops.dual_averaging import DualAveraging
+
+        ad_upd, ad_set = tr_adaptive(AdaptiveStepSize)
+        dual = tr_dual(DualAveraging, DualAveragingStepSize)
+        tr_hmc_tune(HMCOperator)
+    except Unrecognised as e:
+        notes.append(str(e))
+    except Exception as e:
+        notes.append(f"adaptors: {type(e).__name__}: {e}")
     ok = not notes
     lines = ["import TTModel.C15_Expr", "import TTModel.C15_MCMC",
              "/-! GENERATED by harness/translators/tr_tuning.py from the `adaptable_parameter` getters,",
@@ -202,6 +302,13 @@ def translate(repo=None):
                   f"    getter := {s['getter']},", f"    setter := {s['setter']} }}", ""]
     lines += ["/-- `new_parameter` of `MCMCOperator.tune` over adaptable, acc, target, count -/",
               f"def rmExpr : Expr := {rm if rm else bad}", "",
+              "/-- `new_parameter` of `AdaptiveStepSize.learn` over step, prob, target, count -/",
+              f"def adaptiveUpd : Expr := {ad_upd if ad_upd else bad}",
+              "/-- what `AdaptiveStepSize.learn` stores in `_integrator.step_size`, over value -/",
+              f"def adaptiveSet : Expr := {ad_set if ad_set else bad}", "",
+              "/-- assignments of `DualAveraging.step` after `_counter += 1`, in order -/",
+              "def dualAssigns : List (String × Expr) := ["
+              + ", ".join(f'("{a}", {e})' for a, e in (dual or [("x", bad)])) + "]", "",
               "def specOf : Kind → TuningSpec",
               "  | .scaler => scaler | .window => window | .dirichlet => dirichlet",
               "  | .hmc => hmc | .block => block", "",
@@ -212,6 +319,17 @@ def translate(repo=None):
               "def genSet (k : Kind) (v : α) : α := (specOf k).set 0 v",
               "def genRm (adaptable acc target count : α) : α :=",
               "  rmExpr.eval (envTune adaptable acc target count 0)",
+              "def genAsNew (step prob target count : α) : α :=",
+              "  adaptiveSet.eval (envValue (adaptiveUpd.eval (fun s => if s = \"step\" then step",
+              "    else if s = \"prob\" then prob else if s = \"target\" then target",
+              "    else if s = \"count\" then count else 0)) 0)",
+              "def genDaStep (mu gamma kappa t0 counter sbar xbar stat : α) : α × α × α :=",
+              "  let env := evalAssigns (fun s => if s = \"mu\" then mu else if s = \"gamma\" then gamma",
+              "    else if s = \"kappa\" then kappa else if s = \"t0\" then t0 else if s = \"counter\" then counter",
+              "    else if s = \"s_bar\" then sbar else if s = \"x_bar\" then xbar",
+              "    else if s = \"statistic\" then stat else 0) dualAssigns",
+              "  (env \"s_bar\", env \"x\", env \"x_bar\")",
+              "def genDaSet (v : α) : α := TT.Trans.exp v",
               "end", "", "end TTGen.C15_Tuning", ""]
     return "\n".join(lines), ok, "; ".join(notes), specs
 
